@@ -8,7 +8,7 @@
    for * (pempty_laws); eval / derivative of the empty polynomial PANIC in the code and in the model
    (empty_eval_panics) -- that is why the evaluation theorems carry p <> [] hypotheses. *)
 From Coq Require Import List Arith ZArith.
-From OV Require Import Base.Panic Base.Arith Inst.QcInst Model.Poly Proofs.Poly Proofs.PolyExtra.
+From OV Require Import Base.Panic Base.Arith Inst.QcInst Model.Poly Proofs.Poly Proofs.PolyExtra Proofs.PolyRing.
 Import ListNotations.
 
 (* the commutative-ring hypothesis is satisfiable: Qc *)
@@ -235,6 +235,36 @@ Check ptrim_spec : forall (A : Arith), (forall x y : A, eqb x y = true <-> x = y
 Print Assumptions ptrim_spec.
 Example ptrim_spec_nonvacuous : (forall x y : AQ, eqb x y = true <-> x = y) /\ [q 1 1; q 0 1; q 2 1; q 0 1; q 0 1] <> ([] : list AQ).
 Proof. split; [exact Qc_eqb_spec|discriminate]. Qed.
+
+(* ---------------------------------------------------------------- the ring laws themselves, coefficient by coefficient *)
+(* (equality as polynomials: formal trailing zeros ignored; the empty polynomial is the zero of this ring, pempty_laws) *)
+Theorem poly_ring_laws : forall (A : Arith), RingLaws A -> forall (p q r : list A) (s : A),
+  (forall k, nth k (padd p q) zero = nth k (padd q p) zero) /\
+  (forall k, nth k (padd (padd p q) r) zero = nth k (padd p (padd q r)) zero) /\
+  (forall k, nth k (padd p (pneg p)) zero = nth k [] zero) /\
+  (forall k, nth k (psub p q) zero = nth k (padd p (pneg q)) zero) /\
+  (forall k, nth k (pmul p q) zero = nth k (pmul q p) zero) /\
+  (forall k, nth k (pmul (pmul p q) r) zero = nth k (pmul p (pmul q r)) zero) /\
+  (forall k, nth k (pmul [one] p) zero = nth k p zero) /\
+  (forall k, nth k (pmul (padd p q) r) zero = nth k (padd (pmul p r) (pmul q r)) zero) /\
+  (forall k, nth k (pscale p s) zero = nth k (pmul [s] p) zero).
+Proof.
+  intros A RL p q r s.
+  exact (conj (padd_comm RL p q) (conj (padd_assoc RL p q r) (conj (padd_neg RL p) (conj (psub_as_add RL p q)
+        (conj (pmul_comm RL p q) (conj (pmul_assoc RL p q r) (conj (pmul_one_l RL p)
+        (conj (pmul_padd_distr_r RL p q r) (pscale_as_pmul RL p s))))))))).
+Qed.
+Check poly_ring_laws : forall (A : Arith), RingLaws A -> forall (p q r : list A) (s : A),
+  (forall k, nth k (padd p q) zero = nth k (padd q p) zero) /\
+  (forall k, nth k (padd (padd p q) r) zero = nth k (padd p (padd q r)) zero) /\
+  (forall k, nth k (padd p (pneg p)) zero = nth k [] zero) /\
+  (forall k, nth k (psub p q) zero = nth k (padd p (pneg q)) zero) /\
+  (forall k, nth k (pmul p q) zero = nth k (pmul q p) zero) /\
+  (forall k, nth k (pmul (pmul p q) r) zero = nth k (pmul p (pmul q r)) zero) /\
+  (forall k, nth k (pmul [one] p) zero = nth k p zero) /\
+  (forall k, nth k (pmul (padd p q) r) zero = nth k (padd (pmul p r) (pmul q r)) zero) /\
+  (forall k, nth k (pscale p s) zero = nth k (pmul [s] p) zero).
+Print Assumptions poly_ring_laws.
 
 (* ---------------------------------------------------------------- the same at Qc, hypotheses discharged *)
 Theorem peval_pmul_Qc : forall (p q : list AQ) (x : AQ), p <> [] -> q <> [] ->
